@@ -7,6 +7,7 @@ single connected IMAP client.
 #
 import asyncio
 import logging
+import re
 import sys
 from enum import StrEnum
 from itertools import count, groupby
@@ -37,6 +38,8 @@ if TYPE_CHECKING:
     from .user_server import IMAPClientProxy, IMAPUserServer
 
 logger = logging.getLogger("asimap.client")
+
+RE_EXPUNGE_RESPONSE = re.compile(r"^\* \d+ EXPUNGE\r?\n?$")
 
 
 ####################################################################
@@ -402,7 +405,14 @@ class BaseClientHandler:
         """
         Return True if any of the pending notifications are EXPUNGE's
         """
-        return any("EXPUNGE" in x for x in self.pending_notifications)
+        # NOTE: An EXPUNGE response, `* n EXPUNGE`. Not a FETCH that happens to
+        #       have the word in it (`* 2 FETCH (FLAGS (EXPUNGE))`, a keyword):
+        #       that blocked every command by message number of the sessions
+        #       it was pending for and got them disconnected.
+        #
+        return any(
+            RE_EXPUNGE_RESPONSE.match(x) for x in self.pending_notifications
+        )
 
     ####################################################################
     #
